@@ -161,6 +161,7 @@ class PoolHarness:
         self.k = constants
         self.max_id, self.threshold = constants["MaxId"], constants["Threshold"]
         self.nconns = constants["NConns"]
+        self.ks = bool(constants.get("Ks", False))
         self.req_names = sorted(constants["Reqs"])
         self.world = SimWorld()
         self.node = self.world.add_node(FakeNode("10.0.0.1"))
@@ -182,10 +183,28 @@ class PoolHarness:
             conn = orig_factory(endpoint, *a, **kw)
             if mine:
                 self._adopt(conn)
+                orig_skb = conn.set_keyspace_blocking
+
+                def set_keyspace_blocking(keyspace, orig_skb=orig_skb):
+                    # the USE round trip on a connection the pool has not published yet: answered at once by the
+                    # node, but a step of its own for the schedule (the thread is parked when it returns)
+                    self.node.auto = True
+                    try:
+                        orig_skb(keyspace)
+                    finally:
+                        self.node.auto = False
+                    self.sched.yield_point("use:done")
+                conn.set_keyspace_blocking = set_keyspace_blocking
                 self.sched.yield_point("opened")
             return conn
         self.cluster.connection_factory = factory
         self.session = self.cluster.connect()
+        if self.ks:
+            self.node.auto = True
+            try:
+                self.session.set_keyspace("ks")
+            finally:
+                self.node.auto = False
         self.cluster.executor.inline = False
         cpool.time = TickClock(self.world.clock)
         self.host = list(self.cluster.metadata.all_hosts())[0]
@@ -194,6 +213,8 @@ class PoolHarness:
         self.pool._stream_available_condition = SimCondition(self.pool._lock)
         if len(self.conns) != 1 or self.pool._connection is not self.conns[0]:
             raise RuntimeError("pool did not open exactly one connection through the factory")
+        if self.ks and not (self.pool._keyspace == "ks" and self.conns[0].keyspace == "ks" and self.conns[0].in_flight == 0):
+            raise RuntimeError("session keyspace was not established on the pool")
         self.futures = {}
         self.started = set()
         self.pick = {}
@@ -338,6 +359,11 @@ class PoolHarness:
             lab = self._run(self.tname, lambda l: l == "opened")
         finally:
             self.node.accepting = True
+        self.tphase = None if lab == "end" else ("use" if self.ks else "publish")
+
+    def act_ReplaceUse(self, a):
+        self._tphase("use")
+        lab = self._run(self.tname, lambda l: l == "use:done")
         self.tphase = None if lab == "end" else "publish"
 
     def act_ReplacePublish(self, a):
@@ -669,7 +695,7 @@ def record(constants, rng, max_events=60, p_fail=0.08, p_shutdown=0.08):
                     ops.append(op)
             if cfails < constants["MaxConnFails"] and rng.random() < p_fail:
                 for i, c in enumerate(h.conns, 1):
-                    if not c.is_closed and not (h.tphase == "publish" and i == len(h.conns)):
+                    if not c.is_closed and not (h.tphase in ("use", "publish") and i == len(h.conns)):
                         if not c._requests:
                             down = False
                         elif h.pool.is_shutdown:
@@ -684,6 +710,8 @@ def record(constants, rng, max_events=60, p_fail=0.08, p_shutdown=0.08):
                     ops += [{"e": "ReplaceOpen", "f": True}] * 3
                 if fails < constants["MaxFails"]:
                     ops.append({"e": "ReplaceOpen", "f": False})
+            elif h.tphase == "use":
+                ops += [{"e": "ReplaceUse"}] * 3
             elif h.tphase == "publish":
                 ops += [{"e": "ReplacePublish"}] * 3
             elif h.tphase == "retire":
